@@ -2216,12 +2216,22 @@ static void compile_stmt(CG *cg, ASTNode *node) {
         }
 
         cg->loop_depth--;
+        /* The loop variable and the hidden iteration temporaries go out of scope */
+        for (uint16_t i = arr_slot; i < cg->local_count; i++) {
+            cg->locals[i].name = (char *)"";
+        }
         break;
     }
 
     case AST_BLOCK: {
+        uint16_t scope_start = cg->local_count;
         for (int i = 0; i < node->as.block.count; i++) {
             compile_stmt(cg, node->as.block.statements[i]);
+        }
+        /* Block scope ends: its locals keep their slots but are no longer visible
+         * by name, so an outer variable shadowed inside the block is seen again. */
+        for (uint16_t i = scope_start; i < cg->local_count; i++) {
+            cg->locals[i].name = (char *)"";
         }
         break;
     }
